@@ -4,7 +4,9 @@ package netstate
 
 import (
 	"context"
+	"errors"
 	"fmt"
+	"sync/atomic"
 	"testing"
 	"testing/synctest"
 	"time"
@@ -58,7 +60,7 @@ type c19Chg struct {
 }
 
 type c19Op struct {
-	kind  byte // 's', 'n', 'd', 'e', 'x' (the Watch context is cancelled; the source goes on)
+	kind  byte // 's', 'n', 'd', 'e', 'x' (the Watch context is cancelled; the source goes on), 'f' (the source ends with an error)
 	iface int  // s
 	mask  Change
 	cs    []c19Chg // n: every interface at most once (a changeSet is a map)
@@ -85,6 +87,8 @@ func c19Case(ops []c19Op) string {
 			c.S("e")
 		case 'x':
 			c.S("x")
+		case 'f':
+			c.S("f")
 		}
 	}
 	return c.String()
@@ -127,10 +131,17 @@ func c19Exec(ops []c19Op) string {
 	cmdC := make(chan changeSet)
 	ackC := make(chan struct{})
 	doneC := make(chan string, 1)
+	// 'f': watching ends because the source fails (rtnetlink Receive error, SetReadDeadline error,
+	// the not-implemented stub of other platforms): "every subscriber channel is closed exactly
+	// once when watching ends" does not depend on how it ends.
+	var srcFails atomic.Bool
 	w.watch = func(ctx context.Context, notify func(changes changeSet)) error {
 		for cs := range cmdC {
 			notify(cs)
 			ackC <- struct{}{}
+		}
+		if srcFails.Load() {
+			return errors.New("verif: link-state source failed")
 		}
 		return nil
 	}
@@ -211,7 +222,10 @@ loop:
 		case 'x':
 			wcancel()
 			time.Sleep(time.Millisecond) // let whatever reacts to the cancellation run
-		case 'e':
+		case 'e', 'f':
+			if o.kind == 'f' {
+				srcFails.Store(true)
+			}
 			close(cmdC)
 			ended = true
 			select {
@@ -356,13 +370,13 @@ func c19Random(r *vfh.Rand) []c19Op {
 			ops = append(ops, c19Op{kind: 'd', id: r.Intn(nsubs), n: n})
 		default:
 			if !ended {
-				ops = append(ops, c19Op{kind: 'e'})
+				ops = append(ops, c19Op{kind: c19End(r)})
 				ended = true
 			}
 		}
 	}
 	if !ended && r.Chance(5, 6) {
-		ops = append(ops, c19Op{kind: 'e'})
+		ops = append(ops, c19Op{kind: c19End(r)})
 		for k := r.Intn(4); k > 0 && nsubs > 0; k-- {
 			ops = append(ops, c19Op{kind: 'd', id: r.Intn(nsubs), n: r.Intn(12)})
 		}
@@ -371,13 +385,21 @@ func c19Random(r *vfh.Rand) []c19Op {
 	if r.Chance(1, 5) && len(ops) > 1 {
 		pos := r.Intn(len(ops))
 		for i, o := range ops {
-			if o.kind == 'e' && pos > i {
+			if (o.kind == 'e' || o.kind == 'f') && pos > i {
 				pos = i
 			}
 		}
 		ops = append(ops[:pos], append([]c19Op{{kind: 'x'}}, ops[pos:]...)...)
 	}
 	return ops
+}
+
+// c19End: watching ends cleanly or (one time in three) because the source fails.
+func c19End(r *vfh.Rand) byte {
+	if r.Chance(1, 3) {
+		return 'f'
+	}
+	return 'e'
 }
 
 // c19SingleUse calls Watch n times on one Watcher whose hook returns at once.
@@ -422,6 +444,20 @@ func verifC19(t *testing.T, r *vfh.Rand, out *vfh.Out) {
 	cr := &c19Runner{t: t, out: out}
 	for _, ops := range c19CancelThenNotify() {
 		cr.run(ops)
+	}
+	// the source ends with an error: with and without pending values, 1..3 subscribers
+	for subs := 1; subs <= 3; subs++ {
+		for _, pending := range []bool{false, true} {
+			var ops []c19Op
+			for k := 0; k < subs; k++ {
+				ops = append(ops, c19Op{kind: 's', iface: k % 2, mask: LinkAny})
+			}
+			if pending {
+				ops = append(ops, c19Op{kind: 'n', cs: []c19Chg{{iface: 0, changes: []Change{LinkDown, LinkUp}}}})
+			}
+			ops = append(ops, c19Op{kind: 'f'})
+			cr.run(ops)
+		}
 	}
 
 	// (1) exhaustive: every mask (the 127 non-empty subsets and the empty one) x every single
